@@ -647,34 +647,22 @@ class Triangle(Polygon, Simplex):
         return bisector1.meet(bisector2)
 
     def contains(self, other: PointTensor) -> npt.NDArray[np.bool_]:
-        # faster algorithm using barycentric coordinates
+        # faster algorithm using barycentric coordinates, only for finite triangles in the plane
+        if self.dim > 2 or np.any(np.isclose(self.array[..., -1], 0, atol=EQ_TOL_ABS)):
+            return super().contains(other)
 
-        # TODO: vectorize
-
-        a, b, c, p = np.broadcast_arrays(*self.array, other.array)
+        a, b, c, p = np.broadcast_arrays(*self.normalized_array, other.array)
 
         lambda1 = det(np.stack([p, b, c], axis=-2))
         lambda2 = det(np.stack([a, p, c], axis=-2))
-
-        result = (lambda1 <= 0) == (lambda2 <= 0)
-
-        if not np.any(result):
-            return result
-
         lambda3 = det(np.stack([a, b, p], axis=-2))
 
-        area = lambda1 + lambda2 + lambda3
+        # the barycentric coordinates of a point of the closed triangle all have the sign of the orientation of the
+        # triangle (times the sign of the last coordinate of the point) or vanish
+        sign = np.sign(det(np.stack([a, b, c], axis=-2))) * np.sign(np.real(p[..., -1]))
+        inside = (sign * lambda1 >= -EQ_TOL_ABS) & (sign * lambda2 >= -EQ_TOL_ABS) & (sign * lambda3 >= -EQ_TOL_ABS)
 
-        if np.isscalar(area):
-            if area < 0:
-                return lambda1 <= 0 and lambda3 <= 0
-            return lambda1 >= 0 and lambda3 >= 0
-
-        ind = area < 0
-        result[ind] &= (lambda1[ind] <= 0) & (lambda3[ind] <= 0)
-        result[~ind] &= (lambda1[~ind] >= 0) & (lambda3[~ind] >= 0)
-
-        return result
+        return inside & ~np.isclose(p[..., -1], 0, atol=EQ_TOL_ABS)
 
 
 class Rectangle(Polygon):
